@@ -6,7 +6,7 @@ from parglare import Grammar, Parser, GLRParser
 from parglare.exceptions import DisambiguationError, SRConflicts, RRConflicts, GrammarError
 
 import gen
-from enc import Numbering, enc_grammar, enc_table, enc_input, tree_sexp, enc_tree
+from enc import Numbering, enc_grammar, enc_table, enc_input, tree_sexp, enc_tree, skip_table
 from model import Batch
 from common import budget, BudgetExceeded, h16, chunks, seed
 
